@@ -92,6 +92,14 @@ def run_case(case):
         opts = list(s3.OPTION_SETS[case.get("opt", "default")]) + [f"--ff={case['ff']}"]
     elif case.get("kind") == "strand":
         atoms = build.build_strand(case["seq"], naming=case["naming"])
+        if case.get("head_ion"):
+            # an ion carrying the strand's chain id, listed before it
+            import numpy as np
+
+            atoms.insert(0, build.BAtom(
+                name="MG", res_name="MG", chain=atoms[0]["chain"], res_seq=0,
+                icode="", xyz=np.array([25.0, 25.0, 25.0]), record="HETATM",
+                res_idx=-1))
         text = build.pdb_text(atoms)
         n = len(case["seq"])
         info = [{"kind": "na", "input": nm, "res_seq": 1 + i,
@@ -457,4 +465,8 @@ def enumerate_cases(tier, seed):
             for opt in ("default", "nodebump_noopt"):
                 cases.append({"kind": "strand", "seq": seq, "naming": naming,
                               "ff": ff, "opt": opt})
+    for seq in (["DA", "DT", "DG", "DC"], ["RA", "RU", "RG"]):
+        for opt in ("default", "nodebump_noopt"):
+            cases.append({"kind": "strand", "seq": seq, "naming": "legacy",
+                          "ff": "AMBER", "opt": opt, "head_ion": True})
     return cases
